@@ -47,6 +47,8 @@ def _step(w, op, a):
         return w.abort()
     if op == 'other':
         return w.other_commit(a)
+    if op == 'fail_sp':
+        return w.unpicklable_savepoint()
     raise ValueError(op)
 
 
@@ -64,14 +66,13 @@ def _run(codes, args, storage):
         trace.append(t)
         where = ' '.join(trace)
         w.check_view(where)
-        if op in ('commit', 'abort'):
+        if op in ('commit', 'abort', 'fail_sp'):
             w.check_clean(where)
             w.check_other_connection(where)
         elif op in ('savepoint', 'rollback'):
             w.check_other_connection(where)
     # objects that were new in an aborted transaction can be added again, with their state
-    if not w.sps:
-        w.readd_disowned(' '.join(trace))
+    w.readd_disowned(' '.join(trace))
     # finally: commit stores exactly the final states; abort discards everything
     w.commit()
     w.check_view('final commit after ' + ' '.join(trace))
@@ -82,7 +83,7 @@ def _run(codes, args, storage):
 
 
 CODES = ['modify0', 'modify1', 'add', 'add_explicit', 'savepoint', 'rollback0', 'rollback1', 'rollback2', 'commit', 'abort',
-         'modify2', 'other0']
+         'modify2', 'other0', 'fail_sp']
 
 
 def _decode(code, nsp):
@@ -98,7 +99,7 @@ def _decode(code, nsp):
         return 'rollback', k, k + 1
     if code == 'savepoint':
         return 'savepoint', 0, nsp + 1
-    if code in ('commit', 'abort'):
+    if code in ('commit', 'abort', 'fail_sp'):
         return code, 0, 0
     return code, 0, nsp
 
@@ -131,8 +132,9 @@ def h_program(c0: int, c1: int, c2: int, c3: int, c4: int, c5: int, n: int, stor
 MID = ['modify', 'add', 'add_explicit', 'nothing']
 
 
-def h_directed(p0: int, p1: int, p2: int, k1: int, k2: int, extra_sp: bool, storage: str) -> None:
-    """op, S, op, [S], R(k1), op, S, R(k2): repeated rollbacks combined with later savepoints."""
+def h_directed(p0: int, p1: int, p2: int, k1: int, k2: int, extra_sp: bool, touch: bool, storage: str) -> None:
+    """op, S, op, [S, [modify the newest object again]], R(k1), op, S, R(k2): repeated rollbacks combined with later
+    savepoints; an object saved by a savepoint may be changed again before the rollback."""
     ops = [MID[choose(p, len(MID))] for p in (p0, p1, p2)]
     nsp1 = 2 if extra_sp else 1
     r1 = choose(k1, nsp1)
@@ -148,6 +150,10 @@ def h_directed(p0: int, p1: int, p2: int, k1: int, k2: int, extra_sp: bool, stor
     emit(ops[1])
     if extra_sp:
         emit('savepoint')
+        if touch:
+            emit('modify', -1)          # the newest object (possibly created after the first savepoint and saved by the second)
+    else:
+        assume(not touch)
     emit('rollback', r1)
     emit(ops[2])
     emit('savepoint')
